@@ -292,7 +292,7 @@ def T_depth(name, maxlen, sigma='tiny'):
                   invariants=('ScanOK', 'LanguageEq', 'ErrorAbsorbs', 'TransducersOK'), spec='SSpec')
 
 
-def P_apalache(name, module, inv, timeout=600):
+def P_apalache(name, module, inv, timeout=600, init=None, length=0):
     """An unbounded lemma discharged by Apalache (symbolic, all integers): design level, nothing is executed on the code."""
     def run(ctx):
         t0 = time.time()
@@ -301,13 +301,14 @@ def P_apalache(name, module, inv, timeout=600):
         for f in os.listdir(ctx.specdir()):
             if f.endswith('.tla'):
                 shutil.copy(os.path.join(ctx.specdir(), f), d)
-        p = subprocess.run(['timeout', str(timeout), 'apalache-mc', 'check', '--length=0', '--inv=' + inv, module + '.tla'],
+        p = subprocess.run(['timeout', str(timeout), 'apalache-mc', 'check', '--length=%d' % length, '--inv=' + inv] +
+                           (['--init=' + init] if init else []) + [module + '.tla'],
                            cwd=d, env=ctx.env, capture_output=True, text=True)
         out = p.stdout + p.stderr
         if 'EXITCODE: OK' not in out or 'The outcome is: NoError' not in out:
             raise Broken('stage %s: Apalache did not discharge %s!%s:\n%s' % (name, module, inv, out[-1500:]))
         ctx.cov['stages'].append({'stage': name, 'module': module, 'direction': 'Apalache, unbounded integers', 'invariant': inv,
-                                  'outcome': 'NoError', 'wall_s': round(time.time() - t0, 1)})
+                                  'init': init or 'Init', 'length': length, 'outcome': 'NoError', 'wall_s': round(time.time() - t0, 1)})
     return run
 
 
@@ -489,7 +490,7 @@ S_ALL = list(range(1, 12))
 O_ALL = list(range(1, 12))
 INV = ('DocOK', 'CopyBound', 'LimitZeroNeverFails', 'SkipEquivalent', 'EnsureLookup')
 PROPS = ('OnlyCopyCounts', 'FirstFailureWins', 'NoOpSteps', 'OnlyRemoveForgiven', 'EnsureAgrees', 'EnsureFrame',
-         'OrderPreserved', 'LiteralsCarried')
+         'OrderPreserved', 'LiteralsCarried', 'RefinesCopyAcct')
 PATCH_ASSUME = [
     'bounded universe: seed documents, values and near-miss pointers of spec/MCPatch.tla; exhaustive only up to the stated depth',
     'the independent JSON reader of harness/jsonread is the projection (cross-checked against TLC and the library in C16/C17 runs)',
@@ -546,13 +547,15 @@ PLANS = {
          AP('d2L', [10], [1, 9], [1, 5, 8], [1, 5], 2, kinds=['copy', 'add', 'remove'], respell=True, extra_opt='wsonly=1', legacy=True),
          AP('d1', [1, 2, 7, 10, 11], [1, 8, 9, 10, 11], V_ALL, [1, 2, 9], 1, respell=True, extra_opt='wsonly=1'),
          AP('d2', [10, 6], [1, 8, 9, 10], [1, 5, 8], [1, 5], 2, kinds=['copy', 'add', 'remove', 'replace'], respell=True,
-            extra_opt='wsonly=1')],
+            extra_opt='wsonly=1'),
+         P_apalache('acct0', 'CopyAcct', 'IndInv', init='Init', length=0), P_apalache('acct1', 'CopyAcct', 'IndInv', init='IndInit', length=1)],
         [AP('d1L', S_ALL, [1, 9], V_ALL, [1, 2, 9], 1, respell=True, extra_opt='wsonly=1', legacy=True),
          AP('d2L', [10, 6], [1, 9], [1, 5, 8], [1, 5], 2, kinds=['copy', 'add', 'remove', 'replace'], respell=True, extra_opt='wsonly=1', legacy=True, timeout=9000),
          AP('d1', S_ALL, [1, 8, 9, 10, 11], V_ALL, [1, 2, 9], 1, respell=True, extra_opt='wsonly=1'),
          AP('d2', [1, 2, 7, 10, 6], [1, 8, 9, 10], [1, 5, 8], [1, 5], 2, kinds=['copy', 'add', 'remove', 'replace'], respell=True,
             extra_opt='wsonly=1', timeout=9000),
-         AP('d3', [9, 8], [1, 8, 9, 10], [5, 7], [5], 3, kinds=['add', 'copy'], timeout=9000)],
+         AP('d3', [9, 8], [1, 8, 9, 10], [5, 7], [5], 3, kinds=['add', 'copy'], timeout=9000),
+         P_apalache('acct0', 'CopyAcct', 'IndInv', init='Init', length=0), P_apalache('acct1', 'CopyAcct', 'IndInv', init='IndInit', length=1)],
         'for every successful behaviour ending in a copy the patch is re-run with limits total-1 (must stop with '
         '*AccumulatedCopySizeError and no document), total, total+1, total+1000 (must succeed with the same document), through '
         'the per-call option and through the package default; behaviours under fixed limits 7/12/20 are compared with the '
